@@ -630,6 +630,15 @@ impl Server {
         
         // First phase: read and parse with the lock
         let read_result = self.connections.with_connection(id, |conn| -> Result<()> {
+            // A connection that is closing (QUIT, protocol error) reads nothing more; it only
+            // delivers the replies that are still buffered and is removed once they are out.
+            if conn.is_closing() {
+                if conn.has_pending_writes() && conn.flush().is_err() {
+                    conn.abandon_pending_writes();
+                }
+                return Ok(());
+            }
+            
             // Try to flush any pending writes first to avoid buffer buildup
             if conn.has_pending_writes() {
                 match conn.flush() {
@@ -3386,7 +3395,8 @@ impl Server {
         // Check all connections for closing state
         for id in self.connections.all_connection_ids() {
             let should_remove = self.connections.with_connection(id, |conn| {
-                conn.is_closing()
+                // replies still waiting for a slow reader are delivered before the close
+                conn.is_closing() && !conn.has_pending_writes()
             }).unwrap_or(false);
             
             if should_remove {
